@@ -3198,18 +3198,18 @@ static hawk_sed_cmd_t* exec_cmd (hawk_sed_t* sed, hawk_sed_cmd_t* cmd)
 		case HAWK_SED_CMD_CHANGE:
 			if (cmd->state.c_ready)
 			{
-				/* change the pattern space */
-				n = hawk_ooecs_ncpy(
-					&sed->e.in.line,
+				/* place the text on the output. it must be written
+				 * here, not left in the pattern space for the
+				 * end-of-cycle printing which -n turns off */
+				n = write_str (sed,
 					cmd->u.text.ptr,
 					cmd->u.text.len
 				);
-				if (n == (hawk_oow_t)-1) return HAWK_NULL;
+				if (n <= -1) return HAWK_NULL;
 			}
-			else
-			{
-				hawk_ooecs_clear (&sed->e.in.line);
-			}
+
+			/* delete the pattern space */
+			hawk_ooecs_clear (&sed->e.in.line);
 
 			/* move past the last command so as to start
 			 * the next cycle */
